@@ -122,7 +122,7 @@ func (s *Server) full(name string, args [][]byte) [][]byte {
 // exec executes one command on the keyspace and returns its reply.
 func (s *Server) exec(cs *connState, name string, args [][]byte) resp.Reply {
 	db := cs.db
-	if s.GenericWrites && len(args) > 0 && !infraCmd[name] && !bytes.HasPrefix(args[0], []byte("redis-gunyu")) && !bytes.HasPrefix(args[0], []byte("/redis-gunyu")) {
+	if s.GenericWrites && len(args) > 0 && (!infraCmd[name] || ((name == "eval" || name == "evalsha") && s.Eval == nil)) && !bytes.HasPrefix(args[0], []byte("redis-gunyu-checkpoint")) && !bytes.HasPrefix(args[0], []byte("redis-gunyu-bisync")) && !bytes.HasPrefix(args[0], []byte("/redis-gunyu")) {
 		// log-only mode: business commands are recorded and acknowledged, never interpreted
 		s.propagate(db, s.full(name, args)...)
 		return ok
